@@ -54,6 +54,69 @@ pub fn verif_range_first<T>(m: &Map<&'static [u8], T>, s: &Storage) -> (r: Optio
         let ks = ns_keys(s.kv@, m.ns as int);
         if ks.len() == 0 { r is None } else { r is Some && r->Some_0 is Ok && r->Some_0->Ok_0.0@ == ks[0] && r->Some_0->Ok_0.1 == de::<T>(s.kv@[(m.ns as int, ks[0])]) }
     }) { unimplemented!() }
+/// entries under a 2-component prefix whose third component (u64, filed as its 8 big-endian bytes) is admitted by a raw lower bound
+pub open spec fn prefix_entries_from<T>(kv: KV, ns: int, pb: Seq<u8>, start: Option<Bound>) -> Seq<(u64, T)> {
+    prefix_entries_u64::<T>(kv, ns, pb).filter(|e: (u64, T)| bound_admits(start, be_bytes_u64(e.0)))
+}
+pub open spec fn skip_n<T>(s: Seq<T>, n: int) -> Seq<T> { if n >= s.len() { Seq::empty() } else if n <= 0 { s } else { s.skip(n) } }
+/// D22 target (prefix form): the items `MAP.prefix((a, b)).range(store, start, None, Order::Ascending)[.skip(n)].take(limit)` yields
+#[verifier::external_body]
+pub fn verif_prefix_range_from<A: KeyEnc, B: KeyEnc, T>(m: &Map<(A, B, u64), T>, s: &Storage, p: (A, B), start: Option<Bound>, skip: usize, limit: usize) -> (r: Vec<Result<(u64, T), StdError>>)
+    ensures ({
+        let es = first_n(skip_n(prefix_entries_from::<T>(s.kv@, m.ns as int, enc_pair(p.0.key_bytes(), p.1.key_bytes()), start), skip as int), limit as int);
+        &&& r@.len() == es.len()
+        &&& forall|i: int| 0 <= i < es.len() ==> (#[trigger] r@[i]) is Ok && r@[i]->Ok_0 == es[i]
+    }) { unimplemented!() }
+/// D14 target: `x.to_be_bytes().to_vec()` on a u64
+#[verifier::external_body] pub fn verif_u64_be_vec(v: u64) -> (r: Vec<u8>) ensures r@ == be_bytes_u64(v) { unimplemented!() }
+/// ASSUMED: a u64 is filed as 8 bytes
+pub broadcast axiom fn ax_be_bytes_u64_len(v: u64) ensures (#[trigger] be_bytes_u64(v)).len() == 8;
+/// proved: for byte strings of equal length, being after `a ++ [0]` is being after `a` (the "append a 0 byte" resume point of fixed-width keys)
+pub proof fn lemma_lex_push0_same_len(a: Seq<u8>, k: Seq<u8>)
+    requires a.len() == k.len()
+    ensures lex_lt(a.push(0), k) == lex_lt(a, k)
+    decreases a.len()
+{
+    reveal_with_fuel(lex_le, 2);
+    if a.len() == 0 {
+        assert(a =~= k);
+        assert(!lex_le(a.push(0), k));
+    } else {
+        assert(a.push(0).drop_first() =~= a.drop_first().push(0));
+        assert(a.push(0)[0] == a[0]);
+        if a[0] == k[0] {
+            lemma_lex_push0_same_len(a.drop_first(), k.drop_first());
+            assert(a =~= seq![a[0]] + a.drop_first());
+            assert(k =~= seq![k[0]] + k.drop_first());
+            assert(a.push(0) =~= seq![a[0]] + a.drop_first().push(0));
+            if a.drop_first() == k.drop_first() { assert(a =~= k); }
+            if a.drop_first().push(0) == k.drop_first() { assert(a.push(0) =~= k); }
+            if a == k { assert(a.drop_first() =~= k.drop_first()); }
+            if a.push(0) == k { assert(a.drop_first().push(0) =~= k.drop_first()); }
+        } else {
+            assert(lex_le(a.push(0), k) == (a[0] < k[0]));
+            assert(lex_le(a, k) == (a[0] < k[0]));
+            assert(a != k); assert(a.push(0) != k);
+        }
+    }
+}
+/// proved: resuming exclusively at `be(t) ++ [0]` lists exactly the entries with a greater u64 component
+pub proof fn lemma_entries_after_u64_cursor<T>(kv: KV, ns: int, pb: Seq<u8>, t: u64, b: Vec<u8>)
+    requires b@ == be_bytes_u64(t).push(0)
+    ensures prefix_entries_from::<T>(kv, ns, pb, Some(Bound::ExclusiveRaw(b))) == prefix_entries_u64::<T>(kv, ns, pb).filter(|e: (u64, T)| e.0 > t)
+{
+    broadcast use ax_be_bytes_u64_len, ax_be_bytes_u64_order, group_lex;
+    let all = prefix_entries_u64::<T>(kv, ns, pb);
+    let p = |e: (u64, T)| bound_admits(Some(Bound::ExclusiveRaw(b)), be_bytes_u64(e.0));
+    let q = |e: (u64, T)| e.0 > t;
+    assert forall|i: int| 0 <= i < all.len() implies p(#[trigger] all[i]) == q(all[i]) by {
+        let x = all[i].0;
+        lemma_lex_push0_same_len(be_bytes_u64(t), be_bytes_u64(x));
+        ax_be_bytes_u64_order(t, x); ax_be_bytes_u64_order(x, t);
+        if be_bytes_u64(t) == be_bytes_u64(x) { ax_be_bytes_u64(t); ax_be_bytes_u64(x); }
+    }
+    lemma_filter_ext(all, p, q);
+}
 /// ASSUMED: the big-endian encoding of u64 preserves the order (byte-wise comparison of equal-length big-endian numbers)
 pub broadcast axiom fn ax_be_bytes_u64_order(a: u64, b: u64)
     ensures #[trigger] lex_le(be_bytes_u64(a), be_bytes_u64(b)) == (a <= b);
